@@ -490,6 +490,7 @@ func build(rng *rand.Rand, bad *invalid) urlCase {
 var invalids = []invalid{
 	{"scheme", "http"}, {"scheme", "tcp"}, {"scheme", "redisx"}, {"scheme", "unixs"}, {"scheme", "rediss2"},
 	{"path", "abc"}, {"path", "1x"}, {"path", "1/2"}, {"path", "1.5"}, {"path", "99999999999999999999"}, {"path", "db1"},
+	{"db", ""}, {"dial_timeout", ""}, {"write_timeout", ""}, // a parameter that is present but empty is not a number / duration
 	{"db", "abc"}, {"db", "1x"}, {"db", "1.5"}, {"db", "99999999999999999999"}, {"db", "0x10"},
 	{"dial_timeout", "abc"}, {"dial_timeout", "ten"}, {"dial_timeout", "1x"}, {"dial_timeout", "s"}, {"dial_timeout", "1s1"},
 	{"write_timeout", "abc"}, {"write_timeout", "ten"}, {"write_timeout", "1x"}, {"write_timeout", "s"}, {"write_timeout", "1s1"},
